@@ -236,3 +236,69 @@ def oracle_radau_steps(meta, kw, r):
         out.append(("radau-step-order", "accepted step %d (t=%.6g, h=%.4g) of a Radau run has local error %.3g = %.3g * h^6 "
                     "against the reference flow: not the O(h^6) of an order-5 step" % (i, ti, h, err, worst)))
     return out
+
+
+# ---- RK4: two full steps and a shortened last one (first_step does not divide the interval), from exact data ----
+def rk4_tail_builder(seed, n, defaults, tag):
+    """RK4 with first_step = h on an interval of 2.5 h: the last step is shortened to h/2.  The error of the final sample is
+    O(h^5) (a fixed number of steps from exact data) and the interpolant inside the LAST step is O(h^4); both are fitted
+    over h = h0/2^k.  (Seeded changes C02-b and C07-c broke exactly this step: stage abscissae / Hermite slopes computed
+    for the full step size.)"""
+    rng = random.Random(seed)
+    cases, metas = [], {}
+    g = 0
+    for fam in exact.TIMEDEP + [exact.logistic]:
+        prob = fam(rng)
+        xs = 0.3
+        for sgn in (1.0, -1.0):
+            if sgn < 0 and prob["name"] in ("lingrow",):
+                continue
+            for k in range(4):
+                h = H0["RK4"] / (2 ** k)
+                p2 = dict(prob)
+                p2["y0"] = prob["exact"](xs)
+                xend = xs + sgn * 2.5 * h
+                q = [xs + sgn * h * (2.0 + 0.5 * th) for th in THETAS]
+                kw = dict(method="RK4", prob=p2, x0=xs, xend=xend, rtol=1.0, atol=1.0, defaults=defaults,
+                          first_step=h, dense=True, query=q)
+                cid = "%s%d_%d" % (tag, g, k)
+                meta = {"family": prob["name"], "n": len(p2["y0"]), "backward": sgn < 0, "tolmode": "loose",
+                        "method": "RK4", "group": g, "h": h, "exact": prob["exact"]}
+                cases.append(gen.solve_case(cid, **kw))
+                metas[cid] = (meta, kw)
+            g += 1
+    return cases, metas
+
+
+def rk4_tail_group_oracle(metas, parsed):
+    out = []
+    groups = {}
+    for cid, (meta, kw) in metas.items():
+        groups.setdefault(meta["group"], []).append(cid)
+    for g, cids in groups.items():
+        cids = sorted(cids, key=lambda c: -metas[c][0]["h"])
+        hs, e_end, e_dense = [], [], []
+        for cid in cids:
+            meta, kw = metas[cid]
+            r = parsed[cid]
+            if r.get("status") != "Success" or r.get("stats", [0] * 6)[4] != 3:
+                continue   # not two full steps and a shortened one: not usable for the fit
+            ex = meta["exact"]
+            te = r["t"][-1]
+            scale = max(1.0, max(abs(v) for v in ex(te)))
+            hs.append(meta["h"])
+            e_end.append(max(abs(a - b) for a, b in zip(r["y"][-1], ex(te))) / scale)
+            ed = 0.0
+            for (tq, kind, val) in r.get("sol", []):
+                if kind == "ok":
+                    ed = max(ed, max(abs(a - b) for a, b in zip(val, ex(tq))) / scale)
+            e_dense.append(ed)
+        floor = 2e-12
+        for name, es, want in (("final sample", e_end, 5), ("interpolant inside the shortened last step", e_dense, 4)):
+            use = [(h, e) for h, e in zip(hs, es) if e > floor]
+            if len(use) >= 3:
+                s = fit_slope([u[0] for u in use], [u[1] for u in use])
+                if s is not None and s < want - 1.3:
+                    out.append((cids[0], "rk4-tail-order", "RK4, two steps of h and a last step of h/2 from exact data: error of the %s decays like h^%.2f, expected h^%d (h=%r, errors %r)" %
+                                (name, s, want, [u[0] for u in use], ["%.3g" % u[1] for u in use])))
+    return out
